@@ -276,7 +276,7 @@ pub fn c10_embedded_clear_n7() {
     embedded_uri::<CLEAR, 7, 0, 8>(covers_clear)
 }
 
-// @h prop=C10,C04:thorough tier=quick kind=check timeout=3000 mem=24 bound="UriRefBuf text <= 4 bytes, segment <= 2 bytes (incl. '.', '..')" encodes="uri::PathMut::symbolic_push;PathMutImpl::{symbolic_push,pop,push}"
+// @h prop=C10,C04 tier=thorough kind=check timeout=3000 mem=24 bound="UriRefBuf text <= 4 bytes, segment <= 2 bytes (incl. '.', '..')" encodes="uri::PathMut::symbolic_push;PathMutImpl::{symbolic_push,pop,push}"
 #[cfg_attr(kani, kani::proof)]
 #[cfg_attr(kani, kani::unwind(10))]
 #[cfg_attr(kani, kani::stub(std::vec::Vec::resize, crate::stubs::vec_resize))]
